@@ -21,7 +21,7 @@ PROPS_FILE = "Props/C18.v"
 IMPORTS = "From Verde Require Import Model.Xarray."
 SHARD = 40
 RULE = ("every (rows, cols, #data variables 1..4 (and data=None), #extra coordinates 0..3) configuration with rows, cols in 1..R "
-        "(R=3 quick, 5 thorough; single row, single column and non-square included), each as 1-D axis vectors and as 2-D meshgrids, "
+        "(R=4 quick, 6 thorough; single row, single column and non-square included), each as 1-D axis vectors and as 2-D meshgrids, "
         "with non-uniform non-monotonic axes, easting/northing from disjoint ranges and all-distinct data/extra values (so that any "
         "transposition, swap, flip or mis-pairing changes the output), default and custom dims (including names that swap the words "
         "northing/easting), single-array / tuple data and str / list / tuple names; meshgrids perturbed within the allclose tolerance "
@@ -29,7 +29,7 @@ RULE = ("every (rows, cols, #data variables 1..4 (and data=None), #extra coordin
         "meshgrids, mixed 1-D/2-D, shape mismatches of northing / extra / data, name-count mismatches, None names); grid_to_table on "
         "Datasets, named and unnamed DataArrays and Dataset members built directly with xarray with the coordinates declared in every "
         "order (all permutations up to 4 coordinates) and grids stored as (easting, northing); arrays->grid->table round trips; "
-        "meshgrid_from_1d/meshgrid_to_1d compositions both ways. A case is non-trivial when the call is accepted and the grid has at "
+        "meshgrid_from_1d/meshgrid_to_1d compositions both ways; random larger grids up to 8 x 9. A case is non-trivial when the call is accepted and the grid has at "
         "least 2 cells; distinct = distinct (stream, input) pairs.")
 ASSUMPTIONS = [
     "xarray.Dataset(data_vars, coords) keeps the insertion order of coords and data_vars, raises ValueError on conflicting sizes and on equal dimension names (modelled by xr_dataset; the order is observed on every run)",
@@ -431,7 +431,7 @@ def generate(tier, seed, mixed=None):
     rnd = random.Random(seed)
     quick = tier == "quick"
     cases = []
-    R = 3 if quick else 5
+    R = 4 if quick else 6
     shapes = [(nn, ne) for nn in range(1, R + 1) for ne in range(1, R + 1)]
 
     # 1. make_xarray_grid: every configuration, 1-D and 2-D input
@@ -457,7 +457,7 @@ def generate(tier, seed, mixed=None):
                 cases.append(case_round(vd, a, "round-2d" if two_d else "round-1d", "round"))
 
     # 2. meshgrids perturbed inside the tolerance (accepted) - make and round
-    for it in range(40 if quick else 300):
+    for it in range(60 if quick else 600):
         nn, ne = rnd.choice([s for s in shapes if s != (1, 1)])
         a = build(rnd, nn, ne, rnd.randint(1, 3), rnd.randint(0, 2), True, dims=rnd.choice(DIMS))
         for _ in range(rnd.randint(1, 3)):
@@ -472,7 +472,7 @@ def generate(tier, seed, mixed=None):
     faults = ["E-row", "E-row0", "N-col", "N-col0", "swapped", "transposed", "mixed-e", "mixed-n", "N-shape", "X-shape",
               "D-shape-2d", "D-shape-1d", "X-shape-1d", "D-transposed-1d", "names-more", "names-fewer", "names-none", "names-str",
               "xnames-more", "xnames-fewer", "xnames-none", "xnames-str"]
-    for it in range((3 if quick else 20) * len(faults)):
+    for it in range((4 if quick else 40) * len(faults)):
         f = faults[it % len(faults)]
         nn, ne = rnd.choice([s for s in shapes if s[0] >= 2 and s[1] >= 2 and s[0] != s[1]])
         two_d = f not in ("D-shape-1d", "X-shape-1d", "D-transposed-1d") and (rnd.random() < 0.7 or f in (
@@ -560,7 +560,7 @@ def generate(tier, seed, mixed=None):
                 cases.append(case_table(vd, g, "table-" + mode + ("-T" if tr else ""), "table", recipe))
 
     # 5. meshgrid conversions
-    for it in range(60 if quick else 500):
+    for it in range(90 if quick else 1500):
         nn, ne = rnd.choice(shapes)
         e, n = axes(rnd, nn, ne)
         nx = rnd.randint(0, 2)
@@ -588,6 +588,26 @@ def generate(tier, seed, mixed=None):
                     perturb(rnd, N, (rnd.randrange(nn), rnd.randrange(ne)), big=True)
                 kind = "mesh-to-from-reject"
             cases.append(case_to_from(vd, E, N, extras, kind, "to_from"))
+
+    # 5b. larger random grids (up to 8 x 9), all call styles
+    big = [(nn, ne) for nn in range(1, 9) for ne in range(1, 10) if nn > R or ne > R]
+    for it in range(40 if quick else 1500):
+        nn, ne = rnd.choice(big)
+        r = it % 5
+        if r in (0, 1):
+            a = build(rnd, nn, ne, rnd.randint(0, 4), rnd.randint(0, 3), bool(r), dims=rnd.choice(DIMS))
+            cases.append(case_make(vd, a, "make-large", "make"))
+        elif r == 2:
+            a = build(rnd, nn, ne, rnd.randint(1, 4), rnd.randint(0, 3), rnd.random() < 0.5, dims=rnd.choice(DIMS))
+            cases.append(case_round(vd, a, "round-large", "round"))
+        else:
+            nx = rnd.randint(0, 3)
+            perm = list(range(2 + nx))
+            rnd.shuffle(perm)
+            mode = rnd.choice(["dataset", "named", "unnamed", "member"])
+            nd = rnd.randint(1, 4) if mode in ("dataset", "member") else 1
+            g, recipe = direct_grid(rnd, nn, ne, nd, nx, rnd.choice(DIMS[1:]), perm, mode)
+            cases.append(case_table(vd, g, "table-large", "table", recipe))
 
     # 6. finding F6 (off by default): dims declared in a different order than the first variable's
     if mixed:
